@@ -472,7 +472,8 @@ class Fn:
             a = self.prog.facts.adts.get(adt) if adt else None
             if a is not None and a.get("kind") == "struct" and adt not in known and depth < 2:
                 for fl in a["variants"][0]["fields"]:
-                    expand(i, steps + (("field", fl["name"]),), fl["ty"], depth + 1)
+                    # (new structs are presented as tuples: fields go by position)
+                    expand(i, steps + (("field", fl["i"]),), fl["ty"], depth + 1)
             else:
                 out.append({"i": i, "steps": steps, "ty": ty})
         for i, (c, t) in enumerate(zip(self.body.get("captures", []), self.body.get("upvar_tys", []))):
@@ -596,6 +597,19 @@ class Fn:
                      (p not in PASS_THROUGH and self.prog.return_summary(cs) is not None)):
             # a copy (or a getter handing out an owned copy) is new storage
             return {(("call", self.id, cs.bb, cs.path),) + steps}
+        if cs.args and len(steps) >= 2 and steps[1] == ("field", 0):
+            # conversions between Result and Option keep the payload
+            conv = None
+            if p.startswith("std::result::Result::") and cs.name == "ok" and steps[0] == ("variant", "Some"):
+                conv = (0, ("variant", "Ok"))
+            elif p.startswith("std::result::Result::") and cs.name == "err" and steps[0] == ("variant", "Some"):
+                conv = (0, ("variant", "Err"))
+            elif p.startswith("std::option::Option::") and cs.name == "ok_or" and steps[0] == ("variant", "Ok"):
+                conv = (0, ("variant", "Some"))
+            elif p.startswith("std::option::Option::") and cs.name == "ok_or" and steps[0] == ("variant", "Err") and len(cs.args) > 1:
+                return self._op_origins(cs.args[1], tuple(steps[2:]), visiting)
+            if conv is not None:
+                return self._op_origins(cs.args[conv[0]], (conv[1], ("field", 0)) + tuple(steps[2:]), visiting)
         if cs.name in ("unwrap_or", "unwrap_or_default") and p.startswith(("std::option::Option::", "std::result::Result::")) and cs.args:
             # the payload, or the fallback
             v = "Some" if p.startswith("std::option::Option::") else "Ok"
